@@ -167,6 +167,19 @@ impl Check for C03 {
             }
         }
         self.run_dev_batch(ctx, std::mem::take(&mut batch))?;
+        // (2a) integer literals around the representable range, in every sign context
+        for lit in ["9223372036854775807", "9223372036854775808", "9223372036854775809", "9_223_372_036_854_775_808", "18446744073709551615", "18446744073709551616", "18446744073709551617", "20000000000000000000", "99999999999999999999", "0000000000000000000000001", "1_", "1__0", "000"] {
+            for ctxt in ["x := @\n", "x := -@\n", "x := - @\n", "x := 1 -@\n", "x := 1 - @\n", "x := [-@]\n", "x := (-@)\n", "f(-@)\n", "x := y -@\n", "x := -@ - 1\n", "x := 0 .. -@\n", "x[-@] = 1\n"] {
+                let body = ctxt.replace('@', lit);
+                let mut c = Case::new(format!("print(\"S\")\n{}", body), T_AST, String::new());
+                c.mode = Mode::Ast;
+                c.no_ref = true;
+                batch.push(c);
+                let mut c = Case::new(format!("print(\"S\")\n{}", body), T_PREFIXED, String::new());
+                c.no_ref = true;
+                batch.push(c);
+            }
+        }
         // (2b) pumping: a unit repeated many times (flat repetition, no nesting)
         let units: [&str; 34] = [
             "\n", ";", " ", "\t", "\r\n", "# c\n", ";\n", "\n\n ", "x\n", "x;", "1\n", "\"a\"\n", "x := 1\n", "print(1)\n", "_", "1", "a", "é", "\"",
